@@ -210,12 +210,17 @@ def HpQueue.enqueue (q : HpQueue) (data : List Nat) : HpQueue × Bool :=
     let (q, np) :=
       if q.count = 0 then ({ q with first := some 0, lib := some 0 }, 0)
       else (q, q.last.getD 0 + 2 + (q.dataAt (q.last.getD 0)).length)
-    let (q, np) := if np + entrySize > q.size then ({ q with lib := q.last }, 0) else (q, np)
+    -- a ring that has wrapped already (newest entry below the oldest) must not wrap a second time
+    let wrapped := q.count > 0 && decide (q.last.getD 0 < q.first.getD 0)
+    let (q, np, ok0) :=
+      if np + entrySize > q.size then
+        if wrapped then (q, np, false) else ({ q with lib := q.last }, 0, true)
+      else (q, np, true)
     let (q, ok) :=
-      if q.count > 0 then
+      if ok0 && q.count > 0 then
         if np ≤ q.first.getD 0 then (q, !(decide (np + entrySize > q.first.getD 0)))
         else ({ q with lib := some np }, true)
-      else (q, true)
+      else (q, ok0)
     if ok then
       ({ q with last := some np, count := q.count + 1,
                 mem := (np, data) :: q.mem.filter fun b => !(np ≤ b.1 && b.1 < np + entrySize) }, true)
